@@ -217,3 +217,31 @@ End Inst.
      Lemma atom_decode_bech32 hrp addr : in_family (atom_decode Bech32.decode hrp addr) = true.
      Proof. apply atom_decode_family. exact bech32_decode_family. Qed.
    and likewise avax / egld / inj / ethb32 / zil (bech32), p2wpkh / p2tr (segwit), bch (cashaddr). *)
+
+(* ------------------------------------------------------------------ SPL token: SplToken.GetAssociatedTokenAddress(str, str)
+   over the SolAddrDecoder model; ElectrumV1.FromPrivateKey / FromPublicKey (bytes) *)
+From BU Require Model.SplToken Model.ElectrumWallet.
+Section Spl.
+  Variable sha256 : list N -> list N.
+  Variable on_curve valid_pub : list N -> bool.
+  Notation sol := (sol_decode valid_pub).
+
+  Lemma find_pda_loop_family sc prog fuel : forall bump,
+    in_family (SplToken.find_pda_loop sha256 on_curve sc prog bump fuel) = true.
+  Proof. induction fuel as [|f IH]; intros bump; cbn [SplToken.find_pda_loop]; fam. apply IH. Qed.
+
+  Lemma find_pda_family seeds prog :
+    in_family (SplToken.find_pda b58_alph_btc b58_radix sha256 on_curve sol seeds prog) = true.
+  Proof. unfold SplToken.find_pda. fam; [apply sol_decode_family|apply find_pda_loop_family]. Qed.
+
+  Lemma get_ata_family wallet mint :
+    in_family (SplToken.get_ata b58_alph_btc b58_radix sha256 on_curve sol wallet mint) = true.
+  Proof.
+    unfold SplToken.get_ata, SplToken.get_ata_with_program. fam; try apply sol_decode_family. apply find_pda_family.
+  Qed.
+End Spl.
+
+Lemma electrum_v1_from_private_key_family (G : Type) k : in_family (ElectrumWallet.v1_from_private_key G k) = true.
+Proof. unfold ElectrumWallet.v1_from_private_key. fam. Qed.
+Lemma electrum_v1_from_public_key_family (G : Type) deser b : in_family (ElectrumWallet.v1_from_public_key G deser b) = true.
+Proof. unfold ElectrumWallet.v1_from_public_key. fam. Qed.
